@@ -44,6 +44,9 @@ class Summaries:
         self.reflective: dict[str, set[str]] = {}
         self._callables: dict[str, Callable_] = {}
         self._deps: dict[str, set[str]] = {}
+        self._rdeps: dict[str, set[str]] = {}
+        self._map_cache: dict[tuple, frozenset] = {}
+        self._bind_cache: dict[tuple, tuple] = {}
         self._done = False
         self.reflective_targets: Optional[list[Callable_]] = None
 
@@ -78,22 +81,29 @@ class Summaries:
             self.raises.setdefault(c.key, set())
             self.asserts.setdefault(c.key, set())
             self.unresolved.setdefault(c.key, set())
-        # fixpoint
-        changed = True
-        rounds = 0
-        while changed:
-            changed = False
-            rounds += 1
-            for k, c in self._callables.items():
-                w, r = self._compute(c)
-                if not w <= self.writes[k]:
-                    self.writes[k] |= w
-                    changed = True
-                if not r <= self.raises[k]:
-                    self.raises[k] |= r
-                    changed = True
-            if rounds > 50:
-                break
+        if not new:
+            return
+        for k, ds in self._deps.items():
+            for d in ds:
+                self._rdeps.setdefault(d, set()).add(k)
+        # worklist fixpoint (sets only grow)
+        work = {c.key for c in new}
+        steps = 0
+        while work:
+            k = work.pop()
+            steps += 1
+            w, r = self._compute(self._callables[k])
+            grew = False
+            if not w <= self.writes[k]:
+                self.writes[k] |= w
+                grew = True
+            if not r <= self.raises[k]:
+                self.raises[k] |= r
+                grew = True
+            if grew:
+                work |= self._rdeps.get(k, set())
+            if steps > 200000:
+                raise RuntimeError("summary fixpoint did not converge")
 
     # -------------------------------------------------------- per function
     def event_effects(self, fl: FunctionFlow, node: Node, e: Event) -> tuple[set[Write], set[Raise]]:
@@ -115,10 +125,18 @@ class Summaries:
                 cw = self.writes.get(cal.key, set())
                 cr = self.raises.get(cal.key, set())
                 for x in cw:
+                    places = [(x.owner, x.field)]
+                    if x.field == "<obj>" and x.root.startswith("param:") and x.owner == "?" + x.root:
+                        # the callee mutates the object passed for a parameter:
+                        # the storage is whatever the argument expression denotes here
+                        arg = self._bind(e, cal, mode)[0].get(x.root[len("param:"):])
+                        if isinstance(arg, ast.AST):
+                            places = fl.place(arg) or places
                     for root in self._map_root(fl, e, cal, mode, x.root):
                         if root == "fresh":
                             continue
-                        w.add(Write(x.owner, x.field, x.op, root, x.origin, x.text))
+                        for owner, fld in places:
+                            w.add(Write(owner, fld, x.op, root, x.origin, x.text))
                 for x in cr:
                     if not fl.caught(node, x.exc):
                         r.add(x)
@@ -140,16 +158,20 @@ class Summaries:
     def _map_root(self, fl: FunctionFlow, e: Event, cal: Callable_, mode: str, root: str) -> frozenset:
         if root in ("global", "unk"):
             return frozenset({root})
-        if root.startswith("outer:"):
-            # closure variable of a nested function: same frame as the definer
-            if cal.fn.parent is fl.fn:
-                return frozenset({root[len("outer:"):]})
-            return frozenset({"unk"})
+        k = (id(e), cal.key, mode, root)
+        hit = self._map_cache.get(k)
+        if hit is None:
+            hit = self._map_root_(fl, e, cal, mode, root)
+            self._map_cache[k] = hit
+        return hit
+
+    def _bind(self, e: Event, cal: Callable_, mode: str) -> tuple[dict, bool, list, dict]:
+        """param name -> argument expression ('<fresh>' for a constructed self)."""
+        k = (id(e), cal.key, mode)
+        hit = self._bind_cache.get(k)
+        if hit is not None:
+            return hit
         n = e.node
-        if mode == "ctor":
-            if root == "self":
-                return frozenset({"fresh"})
-        # receiver
         recv: Optional[ast.AST] = None
         args: list[ast.AST] = []
         kws: dict[str, ast.AST] = {}
@@ -161,18 +183,17 @@ class Summaries:
                 if isinstance(a, ast.Starred):
                     star = True
                 args.append(a)
-            for k in n.keywords:
-                if k.arg is None:
+            for kw in n.keywords:
+                if kw.arg is None:
                     star = True
                 else:
-                    kws[k.arg] = k.value
+                    kws[kw.arg] = kw.value
         elif isinstance(n, ast.Attribute):  # getprop
             recv = n.value
         elif isinstance(n, ast.Subscript):  # __getitem__
             recv = n.value
             args = [n.slice]
         elif isinstance(n, (ast.Assign, ast.AnnAssign, ast.AugAssign, ast.Delete)):
-            # setprop / __setitem__: receiver is the target's value
             tgt = n.targets[0] if isinstance(n, (ast.Assign, ast.Delete)) else n.target
             if isinstance(tgt, (ast.Attribute, ast.Subscript)):
                 recv = tgt.value
@@ -180,34 +201,48 @@ class Summaries:
                 args = ([tgt.slice] if isinstance(tgt, ast.Subscript) else []) + [n.value]
         params = self._positional_params(cal.fn)
         bound_first = mode in ("bound", "ctor")
+        out: dict = {}
+        full: list = []
+        if bound_first:
+            full.append("<fresh>" if mode == "ctor" else recv)
+        full += args
+        for i, pn in enumerate(params):
+            if i < len(full):
+                if any(isinstance(a, ast.Starred) for a in full[: i + 1] if not isinstance(a, str) and a is not None):
+                    break
+                out[pn] = full[i]
+        for kname, v in kws.items():
+            out[kname] = v
+        hit = (out, star, args, kws)
+        self._bind_cache[k] = hit
+        return hit
+
+    def _map_root_(self, fl: FunctionFlow, e: Event, cal: Callable_, mode: str, root: str) -> frozenset:
+        if root.startswith("outer:"):
+            # closure variable of a nested function: same frame as the definer
+            if cal.fn.parent is fl.fn:
+                return frozenset({root[len("outer:"):]})
+            return frozenset({"unk"})
         if root == "self":
-            sn = self._self_param(cal.fn)
-            if sn is None:
+            pname = self._self_param(cal.fn)
+            if pname is None:
                 return frozenset({"unk"})
-            pname = sn
         elif root.startswith("param:"):
             pname = root[len("param:"):]
         else:
             return frozenset({"unk"})
-        if pname in kws:
-            return fl.roots(kws[pname])
-        if pname in params:
-            idx = params.index(pname)
-            if bound_first:
-                if idx == 0:
-                    if mode == "ctor":
-                        return frozenset({"fresh"})
-                    if recv is None:
-                        return frozenset({"unk"})
-                    if isinstance(recv, ast.Call) and (dotted(recv.func) or "") == "super":
-                        return frozenset({"self"})
-                    return fl.roots(recv)
-                idx -= 1
-            if 0 <= idx < len(args) and not any(isinstance(a, ast.Starred) for a in args[: idx + 1]):
-                return fl.roots(args[idx])
+        bind, star, args, kws = self._bind(e, cal, mode)
+        if pname in bind:
+            x = bind[pname]
+            if x == "<fresh>":
+                return frozenset({"fresh"})
+            if x is None:
+                return frozenset({"unk"})
+            if isinstance(x, ast.Call) and (dotted(x.func) or "") == "super":
+                return frozenset({"self"})
+            return fl.roots(x)
         if star:
             return frozenset({"unk"})
-        # default value used -> nothing of the caller
         if pname in cal.fn.param_defaults():
             return frozenset({"global"})
         a = cal.fn.node.args
